@@ -418,6 +418,12 @@ def run(ck: Check) -> None:
     quick = ck.tier == "quick"
     ck.translate("EscTables", esc.generate())
     ck.translate("Templates", templates.generate())
+    # the templates themselves (jinja2's own parse) for the Lean lexical analysis: template_lexically_closed,
+    # python_site_table_is_lean_analysis are re-checked by the kernel against the sources of this run
+    from ..translate import template_ast
+    from . import tpl_campaign
+
+    ck.translate("TemplateAst", template_ast.generate())
     ck.prove()
     ck.assumptions += [
         "CPython's lexer is modelled by Dcg/Py/Lex.lean (validated in this run against tokenize+literal_eval)",
@@ -425,6 +431,13 @@ def run(ck: Check) -> None:
         "lone surrogates are outside the string domain",
         "intended code slots (decorators, methods, --extra-template-data, custom base class, default_factory) are out of scope",
     ]
+    ck.assumptions += [
+        "template_lexically_closed: Jinja2 semantics are those of the interpreter Dcg/Model/Template (validated against the real "
+        "templates on every run in C01); every interpolated value is assumed lexically neutral for the reviewed class of its site "
+        "(discharged in Lean for values of plain characters; for repr/escape-table/docstring values by the literal theorems above, "
+        "un-indented); the statement is about the final lexical state, the per-site state sets are those of the same sound analysis",
+    ]
+    tpl_campaign.campaign_lex_auto(ck, 600 if quick else 6000)
     campaign_lex(ck, 3000 if quick else 40000)
     campaign_translate(ck, 600 if quick else 6000)
     campaign_docstring(ck, 800 if quick else 10000)
